@@ -21,8 +21,13 @@ for item in "$@"; do
     clean
     git apply -R $SD/demo.diff
     echo "-- existing suite with patch only, baseline runner: cargo nextest run --workspace -E 'rdeps($CR)' (expect pass)"
-    cargo nextest run --workspace -E "rdeps($CR)" --offline --no-fail-fast --tool-config-file pb:/w/lib/nextest.toml --profile pb --test-threads 8 2>&1 | grep -E "^\s+(FAIL|SIGABRT|SIGSEGV|TIMEOUT|LEAK)|Summary|error(\[|:)" | sort -u | head -30
+    cargo nextest run --workspace -E "rdeps($CR)" --offline --no-fail-fast --tool-config-file pb:/w/lib/nextest.toml --profile pb --test-threads 8 2>&1 | tee $LOG.nx | grep -E "^\s+(FAIL|SIGABRT|SIGSEGV|TIMEOUT|LEAK)|Summary|error(\[|:)" | sort -u | head -30
     echo "== nextest done $(date +%H:%M)"
+    # load-sensitive tests (timeouts, timing assertions) fail when the sandbox is busy: every failed / timed-out test is run once more, alone
+    grep -E "^\s+(FAIL|TIMEOUT|SIGABRT|SIGSEGV)" $LOG.nx 2>/dev/null | sed -E 's/^\s+\S+ \[[^]]*\] \([^)]*\) //' | sort -u | while read PKG TEST; do
+      echo "-- rerun alone: $PKG $TEST"
+      cargo nextest run -p $PKG -E "test(=$TEST)" --offline --no-fail-fast --tool-config-file pb:/w/lib/nextest.toml --profile pb 2>&1 | grep -E "^\s+(PASS|FAIL|TIMEOUT)|Summary" | sort -u | head -4
+    done
     clean
     git checkout -q -- . && git clean -fdq -e _seed -e target -e _tmp
     # artifacts built in this worktree (not hard links into /repo/target) are only good for this seed's sources: drop them (disk)
